@@ -5,6 +5,8 @@ CONSTANTS
   MaxUid = 2147483647
   CompactAt = 1073741824
   Compact = TRUE
+  SortKindOrder <- MCSortKindOrder
+  WithSortFull = FALSE
   Wrap = FALSE
   MaxInit = 3
   MaxElems = 5
